@@ -11,7 +11,7 @@ func init() {
 			c.Do("C16.a", "L10 lockset", 6, func() { clBarrierLockset(c) })
 			c.Do("C16.b", "L2 tag before close", 6, func() { clFlushOrder(c) })
 			c.Do("C16.c", "L1 terminate once", 6, func() { clTerminateOnce(c) })
-			c.Do("C16.d", "L1+L2 ordered paired destruction", 6, func() { clCleanupOrder(c); clFreeFeed(c) })
+			c.Do("C16.d", "L1+L2 ordered paired destruction", 6, func() { clCleanupOrder(c); clFreeFeed(c); clTryLockRecheck(c) })
 		},
 	})
 	register(&PropCheck{
@@ -22,7 +22,13 @@ func init() {
 		Run: func(c *Ctx) {
 			c.Do("C17.a", "L10 try-lock hand-off re-checks", 3, func() { clTryLockRecheck(c) })
 			c.Do("C17.b", "L2 cleanup walks from the front", 5, func() { clCleanupOrder(c) })
-			c.Do("C17.c", "L2 session termination feeds the cleanup and the free workers", 6, func() { clTerminateOnce(c); clFreeFeed(c); clStoreCursorsClosed(c); clSkiplistCursorSession(c) })
+			c.Do("C17.c", "L2 session termination feeds the cleanup and the free workers", 6, func() {
+				clTerminateOnce(c)
+				clFreeFeed(c)
+				clStoreCursorsClosed(c)
+				clSkiplistCursorSession(c)
+				clTokenPairing(c)
+			})
 		},
 	})
 }
